@@ -14,7 +14,7 @@ from . import samplercommon as SC
 PROPERTY = 'C17'
 LEVEL = 'exploration'
 RULE = ('closed random sampler configurations as in C16 (reactivity tables with zeros, conditional tables, terminal sets, given '
-        'and element-derived masses, targets of 1-40 average fragment masses, seeds). Per sample: (i) every inter-fragment bond '
+        'and element-derived masses, targets of 1-40 average fragment masses offset by 0.37 of one, and - for given masses, which are multiples of 0.5 so that sums are exact - targets that ARE a sum of fragment masses or 0, seeds). Per sample: (i) every inter-fragment bond '
         '(site, partner): site has reactivity > 0 whenever a table is supplied, partner has conditional reactivity > 0 whenever '
         'the site has a conditional table; the same is checked on every weighted-choice event of the hooked selector; (ii) '
         'summed mass of the fragments added after the start fragment >= target and < target without the last one; (iii) '
@@ -68,7 +68,7 @@ def run_single(cfg):
     SC.CHOICES.clear()
     SC.FAIL.clear()
     viol, counters = [], collections.Counter()
-    txt = f"{cfg['frag_string']} poly={cfg['polymer_reactivities']} cond={cfg['fragment_reactivities']} term={cfg['terminal_bonds']} masses={cfg['fragment_masses']} seed={cfg['seed']} target_units={cfg['target_units']}"
+    txt = f"{cfg['frag_string']} poly={cfg['polymer_reactivities']} cond={cfg['fragment_reactivities']} term={cfg['terminal_bonds']} masses={cfg['fragment_masses']} seed={cfg['seed']} target_units={cfg['target_units']} exact_target={cfg.get('exact_target')}"
     try:
         sampler = SC.make_sampler(cfg)
     except Exception as err:
@@ -122,15 +122,16 @@ def run_single(cfg):
         added = [masses.get(nm) for nm in names[1:]]
         if all(x is not None for x in added):
             cw, early = 0.0, None
+            eps = 0.0 if cfg.get('exact_target') is not None else 1e-6
             for i, x in enumerate(added):
-                if cw >= target + 1e-6 and early is None:
+                if cw >= target + eps and early is None:
                     early = i
                 cw += x
-            if cw < target - 1e-6:
+            if cw < target - eps:
                 viol.append(V('c17.stopped_below_target', f'{txt}: added fragments {names[1:]} weigh {cw}, target {target}'))
             if early is not None:
                 viol.append(V('c17.grew_beyond_target', f'{txt}: the target {target} was already reached after {early} of {len(added)} added fragments'))
-            if not added and target > 1e-6:
+            if not added and target > eps:
                 viol.append(V('c17.stopped_below_target', f'{txt}: nothing was added although the target is {target}'))
     # (iv) terminal rules
     for a in got_terminal:
